@@ -1,6 +1,7 @@
 /- driver engine `ksc`: byte-level keystore codecs (MW.Model.KsCodec) behind the line protocol of
    go/cmd/harness/eng_ksc.go.  State = one account bucket (reset starts an empty one). -/
 import MW.Model.KsCodec
+import MW.Spec.KsCodec
 namespace MW.Drv.Ksc
 open MW MW.Model.KsCodec
 
@@ -26,6 +27,16 @@ def showE {α : Type} (f : α → String) : Except Err α → String
   | .error e => tok e
 
 def showInt (i : Int) : String := toString i
+
+/-- spec outcomes in the same tokens -/
+def showR {α : Type} (refusedTok : String) (f : α → String) : Spec.KsCodec.Res α → String
+  | .ok a => "ok" ++ (let s := f a; if s = "" then "" else " " ++ s)
+  | .refused => refusedTok
+  | .crash => "panic"
+
+def showParams (p : Params) : String :=
+  s!"{Hex.encodeTok p.salt} {Hex.encodeTok p.digest} {showInt p.N} {showInt p.R} {showInt p.P}"
+
 
 /-- a state-changing op: on an error the bucket is unchanged (the enclosing db.Update is rolled back) -/
 def upd (st : St) (r : Except Err Bucket) : St × String :=
@@ -91,7 +102,7 @@ def step (st : St) (args : List String) : St × String :=
       let pr : Params := ⟨s, d, n, r, p⟩
       if pr.wf then
         match marshal pr with
-        | some bs => (st, "ok " ++ Hex.encodeTok bs)
+        | some bs => (st, "ok " ++ Hex.encodeTok bs ++ "\tok " ++ Hex.encodeTok (Spec.KsCodec.marshal pr))
         | none => (st, "err-shape")
       else bad
     | _, _, _, _, _ => bad
@@ -99,36 +110,43 @@ def step (st : St) (args : List String) : St × String :=
     match Hex.decode h with
     | none => bad
     | some bs =>
+      let sp := "\t" ++ showR "err-malformed" showParams (Spec.KsCodec.unmarshal bs)
       match unmarshal bs with
-      | .ok p => (st, s!"ok {Hex.encodeTok p.salt} {Hex.encodeTok p.digest} {showInt p.N} {showInt p.R} {showInt p.P}")
-      | .error .malformed => (st, "err-malformed")
-      | .error e => (st, tok e)
+      | .ok p => (st, "ok " ++ showParams p ++ sp)
+      | .error .malformed => (st, "err-malformed" ++ sp)
+      | .error e => (st, tok e ++ sp)
   | ["u32", n] =>
     match u32? n with
-    | some n => (st, "ok " ++ Hex.encodeTok (u32Bytes n))
+    | some n => (st, "ok " ++ Hex.encodeTok (u32Bytes n) ++ "\tok " ++ Hex.encodeTok (Spec.KsCodec.u32 n))
     | none => bad
   | ["u32of", h] =>
     match Hex.decode h with
-    | some bs => (st, showE toString (u32Of bs))
+    | some bs => (st, showE toString (u32Of bs) ++ "\t" ++ showR "err" toString (Spec.KsCodec.readU32 bs))
     | none => bad
   | ["ser-row", t, raw] =>
     match nat? t, Hex.decode raw with
-    | some t, some raw => if t < 256 then (st, "ok " ++ Hex.encodeTok (serializeAccountRow t raw)) else bad
+    | some t, some raw =>
+      if t < 256 then (st, "ok " ++ Hex.encodeTok (serializeAccountRow t raw) ++ "\tok " ++ Hex.encodeTok (Spec.KsCodec.accountRow t raw))
+      else bad
     | _, _ => bad
   | ["de-row", h] =>
     match Hex.decode h with
-    | some bs => (st, showE (fun (p : Nat × Bytes) => s!"{p.1} {Hex.encodeTok p.2}") (deserializeAccountRow bs))
+    | some bs =>
+      let f := fun (p : Nat × Bytes) => s!"{p.1} {Hex.encodeTok p.2}"
+      (st, showE f (deserializeAccountRow bs) ++ "\t" ++ showR "err" f (Spec.KsCodec.readAccountRow bs))
     | none => bad
   | ["ser-hd", pub, priv] =>
     match Hex.decode pub, Hex.decode priv with
     | some pub, some priv =>
       match serializeHDAccountKey pub priv with
-      | some bs => (st, "ok " ++ Hex.encodeTok bs)
+      | some bs => (st, "ok " ++ Hex.encodeTok bs ++ "\tok " ++ Hex.encodeTok (Spec.KsCodec.hdRecord pub priv))
       | none => (st, "err-shape")
     | _, _ => bad
   | ["de-hd", h] =>
     match Hex.decode h with
-    | some bs => (st, showE (fun (p : Bytes × Bytes) => s!"{Hex.encodeTok p.1} {Hex.encodeTok p.2}") (deserializeHDAccountKey bs))
+    | some bs =>
+      let f := fun (p : Bytes × Bytes) => s!"{Hex.encodeTok p.1} {Hex.encodeTok p.2}"
+      (st, showE f (deserializeHDAccountKey bs) ++ "\t" ++ showR "err" f (Spec.KsCodec.readHdRecord bs))
     | none => bad
   | ["hexenc", h] =>
     match Hex.decode h with
@@ -140,7 +158,10 @@ def step (st : St) (args : List String) : St × String :=
     | none => bad
   | "render" :: rest =>
     match parseKs rest with
-    | some k => (st, "ok " ++ Hex.encodeTok (render k) ++ (if validUtf8 (k.remarks.length + 1) k.remarks then " rt=same" else " rt=lossy"))
+    | some k =>
+      -- the file format is written out in `render` itself (not table driven): it is its own spec
+      let o := "ok " ++ Hex.encodeTok (render k) ++ (if validUtf8 (k.remarks.length + 1) k.remarks then " rt=same" else " rt=lossy")
+      (st, o ++ "\t" ++ o)
     | none => bad
   | "import-probe" :: passOk :: rest =>
     -- passOk: whether the probe passphrase opens privParams (scrypt is outside the model: the generator says)
